@@ -182,6 +182,9 @@ class Compiler:
     def call_expr(self, node, env):
         """calls that are pure expressions"""
         f = node.func
+        if isinstance(f, ast.Attribute) and f.attr == "get_int" and isinstance(f.value, ast.Name) \
+                and env["locals"].get(f.value.id, ("",))[0] == "local":
+            return env["locals"][f.value.id]          # an incoming message with one integer field is modelled by that integer
         if isinstance(f, ast.Name):
             if f.id == "len" and len(node.args) == 1:
                 a = node.args[0]
@@ -193,6 +196,8 @@ class Compiler:
                 return ("lenof", e)
             if f.id == "bytes" and not node.args:
                 return ("bytes", ("const", 0), ("const", 0))
+            if f.id == "Message" and not node.args:
+                return ("const", 0)                    # a fresh outgoing message: its value is its type code (0 = none yet)
             if f.id == "b" and len(node.args) == 1:
                 return self.expr(node.args[0], env)
         raise Unsupported("call in expression: %s" % ast.dump(node)[:80])
@@ -301,6 +306,18 @@ class Compiler:
                     lname = self.fresh(t_.id)
                     self.prog.locals[lname] = "value"
                     env["locals"][t_.id] = ("local", lname)
+        for node in ast.walk(tree):          # x = self.meth() where meth returns a tuple: remember the arity for `for ... in x`
+            if isinstance(node, ast.Assign) and isinstance(node.value, ast.Call) and isinstance(node.value.func, ast.Attribute) \
+                    and isinstance(node.targets[0], ast.Name):
+                try:
+                    tgt_obj = self.resolve(node.value.func.value, env)
+                except Unsupported:
+                    continue
+                if isinstance(tgt_obj, Obj) and tgt_obj.kind == "object" and hasattr(tgt_obj.cls, node.value.func.attr):
+                    ct, _ = method_ast(tgt_obj.cls, node.value.func.attr)
+                    for r in ast.walk(ct):
+                        if isinstance(r, ast.Return) and isinstance(r.value, ast.Tuple):
+                            env.setdefault("tuples", {})[node.targets[0].id] = len(r.value.elts)
         body = [s for s in tree.body if not (isinstance(s, ast.Expr) and isinstance(s.value, ast.Constant)
                                              and isinstance(s.value.value, str))]
         k = {"next": cont, "ret": cont, "raise": raise_to}
@@ -322,14 +339,29 @@ class Compiler:
             ins = self.mk("nop", None, s, env)
             ins.next = k["next"]
             return ("pc", P.emit(ins))
+        if isinstance(s, ast.Return) and isinstance(s.value, ast.Tuple):
+            parts = []
+            for i, el in enumerate(s.value.elts):
+                ln = "%s@%d" % (env["res"], i)
+                P.locals.setdefault(ln, "value")
+                parts.append((("local", ln), self.expr(el, env)))
+            ins = self.mk("massign", parts, s, env)
+            ins.next = k["ret"]
+            return ("pc", P.emit(ins))
+        if isinstance(s, ast.Return) and isinstance(s.value, ast.Call) and not self.is_pure_call(s.value, env) \
+                and not self.is_clock(s.value):
+            try:
+                self.expr(s.value, env)               # an expression form we know (e.g. self._buffer[:n].tobytes())
+            except Unsupported:
+                return self.call_stmt(s.value, s, env, dict(k, next=k["ret"]), ("local", env["res"]))
         if isinstance(s, ast.Return):
             val = self.expr(s.value, env) if s.value is not None else ("none",)
             ins = self.mk("assign", (("local", env["res"]), val), s, env)
             ins.next = k["ret"]
             return ("pc", P.emit(ins))
         if isinstance(s, ast.Raise):
-            name = s.exc.func.id if isinstance(s.exc, ast.Call) and isinstance(s.exc.func, ast.Name) else \
-                (s.exc.id if isinstance(s.exc, ast.Name) else "Exception")
+            ex = s.exc.func if isinstance(s.exc, ast.Call) else s.exc
+            name = ex.id if isinstance(ex, ast.Name) else (ex.attr if isinstance(ex, ast.Attribute) else "Exception")
             ins = self.mk("raise", name, s, env)
             ins.next = ("raising", name, k["raise"])
             return ("pc", P.emit(ins))
@@ -347,6 +379,26 @@ class Compiler:
             body = self.block(s.body, env, dict(k, next=("loop", pc)))
             ins.next, ins.alt = body, k["next"]
             return ("pc", pc)
+        if isinstance(s, ast.For):
+            if s.orelse or not isinstance(s.target, ast.Name) or not isinstance(s.iter, ast.Name):
+                raise Unsupported("for form")
+            src = env["locals"].get(s.iter.id)
+            arity = env.get("tuples", {}).get(s.iter.id)
+            if src is None or src[0] != "local" or arity is None:
+                raise Unsupported("for over something that is not a known tuple")
+            tgt = self.target(s.target, env)
+            # header line fires once per element and once more when the tuple is exhausted
+            last = self.mk("nop", "for-exhausted", s, env)
+            last.next = k["next"]
+            nxt = ("pc", P.emit(last))
+            for i in reversed(range(arity)):
+                body = self.block(s.body, env, dict(k, next=nxt))
+                ln = "%s@%d" % (src[1], i)
+                P.locals.setdefault(ln, "value")
+                hd = self.mk("assign", (tgt, ("local", ln)), s, env)
+                hd.next = body
+                nxt = ("pc", P.emit(hd))
+            return nxt
         if isinstance(s, ast.Try):
             if s.handlers or s.orelse:
                 raise Unsupported("try/except")
@@ -364,6 +416,11 @@ class Compiler:
             if len(s.targets) != 1:
                 raise Unsupported("multiple assignment targets")
             return self.assign(s.targets[0], s.value, s, env, k)
+        if isinstance(s, ast.AugAssign) and isinstance(s.target, ast.Name) and env["locals"].get(s.target.id, ("",))[0] == "ref":
+            # arithmetic on a local that is statically a (null) reference: only reachable through a statically false guard
+            ins = self.mk("trap", "arithmetic on a reference", s, env)
+            ins.next = k["next"]
+            return ("pc", P.emit(ins))
         if isinstance(s, ast.AugAssign):
             tgt = self.target(s.target, env)
             cur = self.expr(s.target, env)
@@ -419,6 +476,12 @@ class Compiler:
 
     def assign(self, tnode, vnode, s, env, k):
         P = self.prog
+        if isinstance(tnode, ast.Attribute) and isinstance(vnode, ast.Constant) and vnode.value is None:
+            base = self.resolve(tnode.value, env)
+            if isinstance(base, Obj) and isinstance(base.fields.get(tnode.attr), Ref) and base.fields[tnode.attr].target is None:
+                ins = self.mk("nop", "null-ref stays null", s, env)
+                ins.next = k["next"]
+                return ("pc", P.emit(ins))
         if isinstance(tnode, ast.Name) and env["locals"].get(tnode.id, ("",))[0] == "ref":
             ins = self.mk("nop", "bind-ref", s, env)            # statically bound reference: the line itself is a step
             ins.next = k["next"]
@@ -435,7 +498,10 @@ class Compiler:
         return ("pc", P.emit(ins))
 
     def is_pure_call(self, node, env):
-        return isinstance(node.func, ast.Name) and node.func.id in ("len", "bytes", "b")
+        if isinstance(node.func, ast.Attribute) and node.func.attr == "get_int" and isinstance(node.func.value, ast.Name) \
+                and env["locals"].get(node.func.value.id, ("",))[0] == "local":
+            return True
+        return isinstance(node.func, ast.Name) and node.func.id in ("len", "bytes", "b", "Message")
 
     def delete(self, s, env, k):
         P = self.prog
@@ -461,6 +527,32 @@ class Compiler:
         if not isinstance(f, ast.Attribute):
             raise Unsupported("call of %s" % ast.dump(f)[:60])
         recv = f.value
+        # self._log(...) and friends: a traced line without effect on the model
+        if isinstance(recv, ast.Name) and recv.id == "self" and f.attr in ("_log",):
+            # logging: the call line, then the (straight-line) body lines of the logging helper, all without effect
+            nxt = k["next"]
+            try:
+                tree_, fname_ = method_ast(env["self"].cls, f.attr)
+                body_ = [b_ for b_ in tree_.body if not (isinstance(b_, ast.Expr) and isinstance(b_.value, ast.Constant))]
+                for b_ in reversed(body_):
+                    li = Instr("nop", "log-body", b_.lineno, fname_, env["frame"] + "._log")
+                    li.next = nxt
+                    nxt = ("pc", P.emit(li))
+            except (AttributeError, OSError, TypeError):
+                pass
+            ins = self.mk("nop", "log", s, env)
+            ins.next = nxt
+            return ("pc", P.emit(ins))
+        # calls on a local that holds an outgoing message
+        if isinstance(recv, ast.Name) and env["locals"].get(recv.id, ("",))[0] == "local" and f.attr.startswith("add_"):
+            if f.attr == "add_byte" and call.args and isinstance(call.args[0], ast.Name) and call.args[0].id.startswith("cMSG_"):
+                import paramiko.common as _c
+                code = getattr(_c, call.args[0].id[1:])
+                ins = self.mk("assign", (env["locals"][recv.id], ("const", code)), s, env)
+            else:
+                ins = self.mk("nop", "message-field", s, env)
+            ins.next = k["next"]
+            return ("pc", P.emit(ins))
         # module-level vocabulary
         if isinstance(recv, ast.Name) and recv.id == "os" and f.attr in ("read", "write"):
             fdnode = call.args[0]
@@ -479,6 +571,17 @@ class Compiler:
             sub = obj[1].fields.get(obj[2])
             if isinstance(sub, Obj):
                 obj = sub
+        if isinstance(obj, Obj) and obj.kind == "wire":
+            if f.attr == "_send_user_message":
+                ins = self.mk("wire_send", (obj.name, self.expr(call.args[0], env)), s, env)
+            else:
+                ins = self.mk("nop", "transport." + f.attr, s, env)
+            ins.next = k["next"]
+            return ("pc", P.emit(ins))
+        if isinstance(obj, Obj) and obj.kind == "event":
+            ins = self.mk("nop", "event." + f.attr, s, env)
+            ins.next = k["next"]
+            return ("pc", P.emit(ins))
         if isinstance(obj, Obj) and obj.kind == "lock" and f.attr in ("acquire", "release"):
             ins = self.mk(f.attr, obj.name, s, env)
             ins.next = k["next"]
@@ -504,6 +607,12 @@ class Compiler:
                 return ("pc", P.emit(a))
         if isinstance(obj, Obj) and obj.kind == "buf" and f.attr == "frombytes":
             ins = self.mk("bufappend", (obj.name, ("lenof", self.expr(call.args[0], env))), s, env)
+            ins.next = k["next"]
+            return ("pc", P.emit(ins))
+        if isinstance(obj, Obj) and obj.kind == "object" and obj.cls.__module__ in getattr(self, "opaque_modules", ()):
+            # an object with its own lock whose state the property does not mention: the call is one atomic step
+            # (its internal interleavings commute with everything modelled here)
+            ins = self.mk("nop", "opaque:%s.%s" % (obj.name, f.attr), s, env)
             ins.next = k["next"]
             return ("pc", P.emit(ins))
         if isinstance(obj, Obj) and obj.kind == "object":
@@ -580,6 +689,8 @@ def world_from(roots, symbolic=(), modules=()):
             o = Obj(hint, "cond", lock=lk.name)
         elif isinstance(v, array.array):
             o = Obj(hint, "buf", init=len(v))
+        elif isinstance(v, threading.Event):
+            o = Obj(hint, "event")
         else:
             return None
         ids[id(v)] = o
